@@ -433,7 +433,37 @@ def _entry_paths(ctx, m):
             p = vc.args.args[1].arg
             good = any(norm(lp.iter) == '%s.values()' % p and [norm(b) for b in lp.body] ==
                        ['self._detect_or_validate(%s)' % norm(lp.target)] for lp in loops)
-            if good:
+            # the loop must run for plain dicts AND for SortableDict/MetadataObject: its guard is a disjunction of isinstance
+            # tests (or absent)
+            guard_bad = None
+            for lp in loops:
+                par = getattr(lp, '_parent', None)
+                if isinstance(par, ast.If) and lp in par.body:
+                    t = par.test
+                    classes = set()
+                    okshape = True
+                    if isinstance(t, ast.BoolOp) and isinstance(t.op, ast.Or):
+                        parts = t.values
+                    elif isinstance(t, ast.BoolOp):
+                        parts = []
+                        okshape = False
+                    else:
+                        parts = [t]
+                    for q in parts:
+                        if isinstance(q, ast.Call) and norm(q.func) == 'isinstance' and norm(q.args[0]) == p:
+                            c_ = q.args[1]
+                            classes |= {norm(e) for e in c_.elts} if isinstance(c_, ast.Tuple) else {norm(c_)}
+                        else:
+                            okshape = False
+                    if not okshape or not {'dict', 'SortableDict'} <= classes:
+                        guard_bad = par
+            if good and guard_bad is not None:
+                ctx.violation('C10.D2', '%s::Grid._validate_column' % F, norm(guard_bad.test),
+                              'g = Grid(version="2.0"); g.column["a"] = {"x": [1, 2]} is accepted: the validation loop only runs '
+                              'when `%s`, which a plain dict (or a SortableDict) does not satisfy' % norm(guard_bad.test),
+                              '_validate_column skips the column metadata of some mapping kinds', file=F, line=guard_bad.lineno,
+                              engine='E7')
+            elif good:
                 ctx.ob('C10.D2', '_validate_column checks every value of the stored column metadata', True,
                        '%s:%d' % (F, vc.lineno))
             else:
